@@ -136,6 +136,7 @@ extern ssize_t mpt_queue_push(MPT_STRUCT(encode_queue) *qu, size_t len, const vo
 			
 			/* encode on alignd data */
 			if (done < low) {
+				qu->data.len = done + qu->_state.scratch;
 				mpt_queue_align(&qu->data, 0);
 				vec.iov_len = qu->data.max;
 				push2 = qu->_enc(&qu->_state, &vec, &from);
